@@ -23,6 +23,7 @@ var errClasses = []struct{ sub, class string }{
 	{"not enough bytes in buffer", "EShort"},
 	{"invalid IP size", "EInetSize"},
 	{"received negative column count", "ENegCols"},
+	{"received negative partition key count", "ENegPk"},
 	{"invalid row_count in result frame", "ENegRows"},
 	{"unknown error code", "EUnkErrCode"},
 	{"unknown result kind", "EUnkResKind"},
@@ -39,6 +40,9 @@ var errClasses = []struct{ sub, class string }{
 	{"not enough columns to scan into", "EScanCount"},
 	{"unexpected EOF", "EUnexpEof"},
 	{"EOF", "EEof"},
+	{"can not unmarshal", "EUnmarshal"},
+	{"cannot create Go type", "EUnmarshal"},
+	{"unmarshal", "EUnmarshal"},
 }
 
 // ErrClass maps an error returned by the driver to the model's error classes (by message).
@@ -60,14 +64,10 @@ type Panic struct {
 	Site    string // the model's crash code for that function (CGuarded when it is none of the known ones)
 }
 
-var siteOf = map[string]string{
-	"(*framer).readInetAdressOnly":    "CInetSlice",
-	"(*framer).parsePreparedMetadata": "CPkeyMake",
-	"scanColumn":                      "CScanDest",
-	"(*iterScanner).Scan":             "CScannerIdx",
-	"readBytes":                       "CTupleField",
-	"goType":                          "CMapKey",
-}
+// siteOf: crash codes of the model by the function a panic is raised in.  Since the fixes of the C05
+// findings the model has no reachable crash site: every panic is reported under the model's "unreachable" code
+// and therefore never agrees with the model.
+var siteOf = map[string]string{}
 
 // Classify must be called from the deferred function that recovered r.
 func Classify(r interface{}) Panic {
@@ -94,12 +94,6 @@ func Classify(r interface{}) Panic {
 	p.Site = "CGuarded"
 	if s, ok := siteOf[p.Func]; ok {
 		p.Site = s
-	}
-	if !p.Runtime {
-		// an explicit panic(error) that escaped: raised by a primitive reader called outside parseFrame
-		if strings.HasPrefix(p.Func, "(*framer).read") && (strings.Contains(st, ".(*Iter).Scan(") || strings.Contains(st, ".(*iterScanner).Next(")) {
-			p.Site = "CScanPanic"
-		}
 	}
 	return p
 }
@@ -449,7 +443,7 @@ func RowDataOutcome(it *gocql.Iter) (term string, pn *Panic) {
 	}()
 	rd, err := it.RowData()
 	if err != nil {
-		if strings.Contains(err.Error(), "cannot create Go type for unknown CQL type") {
+		if strings.Contains(err.Error(), "cannot create Go type") {
 			return "(Err EGoType)", nil
 		}
 		return "(Err " + ErrClass(err) + ")", nil
